@@ -94,6 +94,16 @@ def cases(ctx):
                 continue
             if mine():
                 yield dict({"kind": "request", "type": tp, "number": rng.choice([1, 2]), "socket": 0, "remote": "bob"}, **extra)
+    # a repeater node: one local socket id towards two remote nodes, on a network stack whose purpose ids are per (remote, socket)
+    for sid in (0, 1, 3):
+        for order in (["bob", "charlie"], ["charlie", "bob"], ["bob", "charlie", "bob"]):
+            if mine():
+                yield {"kind": "repeater", "socket": sid, "order": order, "type": rng.choice("KM")}
+    # a named basis AND a rotation triple given for the same side of one call: whichever of the two the SDK lets win, it is the
+    # same one for every member of the basis enumeration (and the stack receives one of the two, nothing else)
+    for tp, side, via in (("M", "local", False), ("M", "remote", False), ("R", "local", False), ("M", "local", True)):
+        if mine():
+            yield {"kind": "both-given", "type": tp, "side": side, "via_create": via, "rotations": [rng.randrange(1, 32) for _ in range(3)]}
     for tp in ("K", "M", "R"):
         for extra in ({}, {"rotations_local": [1, 2, 3]}, {"basis_local": "X"}, {"random_basis_local": "XZ"}, {"max_time": 5, "time_unit": "SECONDS"},
                       {"rotations_local": [8, 0, 31], "rotations_remote": [1, 1, 1]}):
@@ -382,6 +392,10 @@ def run_case(ctx, case):
         return _early(ctx, case)
     if case["kind"] == "requests":
         return _requests(ctx, case)
+    if case["kind"] == "repeater":
+        return _repeater(ctx, case)
+    if case["kind"] == "both-given":
+        return _both_given(ctx, case)
     if case["kind"] == "request":
         _request(ctx, case)
     else:
@@ -389,6 +403,75 @@ def run_case(ctx, case):
 
 
 NODE_IDS = {"alice": 0, "bob": 1, "charlie": 2}
+
+
+def _repeater(ctx, case):
+    from netqasm.sdk.epr_socket import EPRSocket
+    sid, tp = case["socket"], case["type"]
+    socks = {who: EPRSocket(who, epr_socket_id=sid, remote_epr_socket_id=sid) for who in ("bob", "charlie")}
+
+    def purpose(remote, socket):
+        return 10 * remote + socket + 3
+    plan = [PlannedRequest("create", tp, 1, remote=NODE_IDS[who], socket=purpose(NODE_IDS[who], sid)) for who in case["order"]]
+    pipe = Pipe(epr_sockets=list(socks.values()), link=LinkModel(plan, partners=False), max_qubits=5)
+    pipe.stack.purpose_of = purpose
+    try:
+        with pipe.conn as conn:
+            for who in case["order"]:
+                if tp == "K":
+                    for q in socks[who].create_keep(1):
+                        q.measure()
+                else:
+                    socks[who].create_measure(1)
+            conn.flush()
+    except (hc.ControllerFault, hc.Deadlock, hc.StepLimit) as e:
+        ctx.fail(case, f"repeater node (socket id {sid} to bob and to charlie, create_{tp} to {case['order']}): controller run failed: {str(e)[:200]}")
+        return ctx.case(case, True)
+    got = [(p.remote_node_id, p.purpose_id) for p in pipe.stack.puts]
+    want = [(NODE_IDS[who], purpose(NODE_IDS[who], sid)) for who in case["order"]]
+    ctx.count("repeater_requests_compared", len(want))
+    if got != want:
+        ctx.fail(case, f"repeater node (socket id {sid} to bob and to charlie): create_{tp} calls to {case['order']} reach the network "
+                       f"stack as (remote node, purpose id) {got}; the stack's purpose ids for these sockets are {want}")
+    ctx.case(case, True)
+
+
+def _both_given(ctx, case):
+    from netqasm.sdk.build_epr import EPRType, EprMeasBasis
+    from netqasm.sdk.epr_socket import EPRSocket
+    tp, side, rot = case["type"], case["side"], tuple(case["rotations"])
+    rules = {}
+    for b in BASIS_ROT:
+        es = EPRSocket("bob", epr_socket_id=0, remote_epr_socket_id=0)
+        link = LinkModel([PlannedRequest("create", tp, 1, remote=NODE_IDS["bob"], socket=0)], partners=False)
+        pipe = Pipe(epr_sockets=[es], link=link, max_qubits=5)
+        kw = {f"basis_{side}": EprMeasBasis[b], f"rotations_{side}": rot}
+        try:
+            with pipe.conn as conn:
+                if case["via_create"]:
+                    es.create(number=1, tp=EPRType[tp], **kw)
+                elif tp == "M":
+                    es.create_measure(1, **kw)
+                else:
+                    es.create_rsp(1, **kw)
+                conn.flush()
+        except (hc.ControllerFault, hc.Deadlock, hc.StepLimit) as e:
+            ctx.fail(case, f"create_{tp}({kw}): controller run failed: {e}")
+            return ctx.case(case, True)
+        if len(pipe.stack.puts) != 1:
+            ctx.fail(case, f"{len(pipe.stack.puts)} requests reached the network stack for one create call")
+            return ctx.case(case, True)
+        got = pipe.stack.puts[0]
+        sfx = [f"rotation_X_{side}1", f"rotation_Y_{side}", f"rotation_X_{side}2"]
+        triple = tuple(getattr(got, f) for f in sfx)
+        ctx.count("named_basis_plus_rotations_calls")
+        # (a triple that happens to equal the basis's own rotations decides nothing)
+        rules[b] = "either" if rot == BASIS_ROT[b] else "basis" if triple == BASIS_ROT[b] else "rotations" if triple == rot else f"neither ({triple})"
+    decided = {r for r in rules.values() if r != "either"}
+    if any(r.startswith("neither") for r in decided) or len(decided) > 1:
+        ctx.fail(case, f"create_{tp}: a named {side} basis given together with {side} rotations {rot}: which of the two reaches the "
+                       f"network stack depends on the basis member: {rules}")
+    ctx.case(case, True)
 
 
 def _request(ctx, case):
